@@ -501,6 +501,13 @@ func (rw *rewriter) stmt(st ast.Stmt) []ast.Stmt {
 			return []ast.Stmt{y, st}
 		}
 		y, site := rw.yieldAssign(h, s, "select")
+		if pre := rw.prioritised(s, site, woke(h, site)); pre != nil {
+			// A select entered with several cases ready is decided by the Go
+			// runtime at random. Try the cases one by one first, in an order
+			// the simulator draws, and only then block on all of them (a
+			// blocked select is decided by whoever wakes it).
+			return []ast.Stmt{y, pre}
+		}
 		for _, cc := range s.Body.List {
 			c := cc.(*ast.CommClause)
 			c.Body = append([]ast.Stmt{woke(h, site)}, c.Body...)
@@ -517,6 +524,71 @@ func (rw *rewriter) stmt(st ast.Stmt) []ast.Stmt {
 		}
 	}
 	return []ast.Stmt{st}
+}
+
+// prioritised rewrites a blocking select whose cases bind no values:
+//
+//	_vc := -1
+//	for _, _vi := range verifrt.SelectOrder(site, n) {
+//		switch _vi {
+//		case 0: select { case <-a: _vc = 0; default: }
+//		...
+//		}
+//		if _vc >= 0 { break }
+//	}
+//	if _vc < 0 { select { case <-a: _vc = 0; case b <- v: _vc = 1 } }
+//	switch _vc { case 0: A; case 1: B }
+//
+// It returns nil if a case binds a received value (such selects keep the plain
+// bracket and the runtime's choice).
+func (rw *rewriter) prioritised(s *ast.SelectStmt, site *ast.BasicLit, wokeStmt ast.Stmt) ast.Stmt {
+	n := len(s.Body.List)
+	for _, cc := range s.Body.List {
+		c := cc.(*ast.CommClause)
+		switch x := c.Comm.(type) {
+		case *ast.ExprStmt:
+			if recvOf(x.X) == nil {
+				return nil
+			}
+		case *ast.SendStmt:
+		default:
+			return nil
+		}
+	}
+	vc := rw.fresh("c")
+	vi := rw.fresh("i")
+	lit := func(i int) ast.Expr { return &ast.BasicLit{Kind: token.INT, Value: fmt.Sprint(i)} }
+	setc := func(i int) ast.Stmt {
+		return &ast.AssignStmt{Lhs: []ast.Expr{vc}, Tok: token.ASSIGN, Rhs: []ast.Expr{lit(i)}}
+	}
+	var tries, full, bodies []ast.Stmt
+	for i, cc := range s.Body.List {
+		c := cc.(*ast.CommClause)
+		one := &ast.SelectStmt{Body: &ast.BlockStmt{List: []ast.Stmt{
+			&ast.CommClause{Comm: c.Comm, Body: []ast.Stmt{setc(i)}},
+			&ast.CommClause{},
+		}}}
+		handled[one] = true
+		tries = append(tries, &ast.CaseClause{List: []ast.Expr{lit(i)}, Body: []ast.Stmt{one}})
+		full = append(full, &ast.CommClause{Comm: c.Comm, Body: []ast.Stmt{setc(i)}})
+		bodies = append(bodies, &ast.CaseClause{List: []ast.Expr{lit(i)}, Body: c.Body})
+	}
+	fullSel := &ast.SelectStmt{Body: &ast.BlockStmt{List: full}}
+	handled[fullSel] = true
+	neg := &ast.UnaryExpr{Op: token.SUB, X: lit(1)}
+	loop := &ast.RangeStmt{Key: ast.NewIdent("_"), Value: vi, Tok: token.DEFINE,
+		X: call(rt("SelectOrder"), site, lit(n)),
+		Body: &ast.BlockStmt{List: []ast.Stmt{
+			&ast.SwitchStmt{Tag: vi, Body: &ast.BlockStmt{List: tries}},
+			&ast.IfStmt{Cond: &ast.BinaryExpr{X: vc, Op: token.GEQ, Y: lit(0)}, Body: &ast.BlockStmt{List: []ast.Stmt{&ast.BranchStmt{Tok: token.BREAK}}}},
+		}}}
+	return &ast.BlockStmt{List: []ast.Stmt{
+		&ast.AssignStmt{Lhs: []ast.Expr{vc}, Tok: token.DEFINE, Rhs: []ast.Expr{neg}},
+		loop,
+		&ast.IfStmt{Cond: &ast.BinaryExpr{X: vc, Op: token.LSS, Y: lit(0)}, Body: &ast.BlockStmt{List: []ast.Stmt{fullSel}}},
+		wokeStmt,
+		&ast.SwitchStmt{Tag: vc, Body: &ast.BlockStmt{List: bodies}},
+	}}
 }
 
 func (rw *rewriter) goStmt(g *ast.GoStmt) []ast.Stmt {
